@@ -184,6 +184,9 @@ WITNESS = {
     "lib_global_lifetime": ({"": HDR + "from library import lib0\nlib0.show()\nlib0.show()\n",
                              "lib0": HDR + "\nG1 = d1.Power\nG2 = d4.Ratio\nd4.Lock = G2 + 0\nd1.Activate = G2 + 1\n\ndef show():\n    db.Setting = G1\n    db.Mode = G2\n"},
                             "globals of a library module get line-based lifetimes: a later top-level temporary reuses the register of a global that functions still read"),
+    "lib_pushpop_call": ({"": HDR + "from library import lib0\n\nlib0.run(d0.Setting)\nlib0.run(2)\ndb.On = 1\n",
+                          "lib0": HDR + "\ndef show(v):\n    db.Setting = v\n\ndef run(v):\n    show(v)\n    show(v + 1)\n    db.Mode = v\n"},
+                         "use_push_pop_functions: a library function that makes a call saves ra (push ra) but never restores it - the end label is searched by the bare function name while the label carries the module prefix"),
     "lib_call_in_function": ({"": HDR + "from library import lib0\n\ndef g(x):\n    lib0.f(x)\n\ng(d0.Setting)\ng(1)\n", "lib0": HDR + "\ndef f(a):\n    db.Setting = a\n"},
                              "a library function called from inside a function of the main file is rejected ('Calling undefined function')"),
 }
@@ -367,7 +370,10 @@ def run(tier: str) -> int:
         except Exception as e:
             rep.harness_errors.append(f"{name}: merge failed: {e}")
             continue
-        for vi, vec in enumerate(vecs):
+        wvecs = vecs + ([{"inline_functions": False, "use_push_pop_functions": True}] if name == "witness:lib_pushpop_call" and tier == "quick" else [])
+        for vi, vec in enumerate(wvecs):
+            if vec.get("use_push_pop_functions") and name.startswith(("multi:", "fixed:suffix_names_in_library")):
+                continue  # recorded finding (witness lib_pushpop_call): library functions with calls under push/pop
             items.append(("ic10_vs_ic10", dict(name=f"{name}@{vi}", sources=srcs, sources2=merged, opts=vec, opts2=vec, tier=tier, features=feats)))
         items.append(("src_vs_ic10", dict(name=f"{name}@src", sources=srcs, tier=tier, features=feats, opts=vecs[-1])))
     results = harness.pmap(e1.run_task, items)
